@@ -23,6 +23,16 @@ theorem replySeg_facts (cfg : Cfg) (t : Tcb) (s : Seg) (a b : Nat) :
   · exact ⟨rfl, rfl, rfl, rfl, Or.inr rfl⟩
   · exact ⟨rfl, rfl, rfl, rfl, Or.inl rfl⟩
 
+theorem caps_heard {cfg : Cfg} {t : Tcb} (c : Cfg) (s : Seg) (h : TcbCaps cfg t) : TcbCaps cfg (t.heard c s) := by
+  unfold heard
+  split
+  · exact h
+  · exact h
+
+theorem heard_state (t : Tcb) (c : Cfg) (s : Seg) : (t.heard c s).state = t.state := by
+  unfold heard
+  split <;> rfl
+
 theorem caps_fresh (cfg : Cfg) (st : TcpState) (p : SockAddr) (a b c : Nat) : TcbCaps cfg (fresh st p a b c) := by
   simp [TcbCaps, fresh]
 
